@@ -191,3 +191,12 @@ Definition lint_package (all eff : list string) (k : pkind) (ps : list problem) 
   | PFailedDep => filter (fun p => load_error (p_cat p)) ps
   | PCleanDep => []
   end.
+
+(* ---- config.Load: a staticcheck.conf that cannot be decoded ----
+   parseConfigs returns an error for a file with a TOML syntax error AND for a file that is valid TOML but gives an
+   option a value of the wrong type (`checks = "SA4018"`, `checks = ["SA4000", 3]`, `[checks]`, `initialisms = 5`, ...).
+   The package (every package at or below that directory) then fails to load: it is a failed package whose only
+   problem is that load error (lint_package, load_error). *)
+Inductive conf_file := ConfAbsent | ConfOk | ConfSyntaxError | ConfMistyped.
+Definition conf_bad (c : conf_file) : bool := match c with ConfSyntaxError | ConfMistyped => true | _ => false end.
+Definition load_fails (chain : list conf_file) : bool := existsb conf_bad chain.
